@@ -480,7 +480,7 @@ def _await_descriptor_upload(tor_protocol, onion, progress, await_all_uploads):
                 )
                 if uploaded.called:
                     pass
-                elif failed_uploads == attempted_uploads:
+                elif attempted_uploads and attempted_uploads <= failed_uploads:
                     msg = "Failed to upload '{}' to: {}".format(
                         args[1],
                         ', '.join(failed_uploads),
